@@ -32,63 +32,76 @@ EVENT = re.compile(r"Pi|P0|P1|Ci|C-?\d+|C-")
 # ----------------------------------------------------------------------------------------------
 def check_history(cap, vals, tokens, drain):
     """tokens: the run's tokens in schedule order (`.`, `x`, `/` are ignored); drain: list of
-    ints delivered by the sequential drain.  Returns None or (key, what).
+    ints delivered by the sequential drain.  Returns the list of (key, what) problems, one per key.
 
-    Property C30 on a history of calls and returns: (1) the values of the successful pops are, at
-    every moment, a prefix of the arguments of the successful pushes, and what the final drain
-    delivers is exactly the rest; (2) a pop may fail only if at some moment between its call and
-    its return nothing was pending — pushes only add, so: nothing was pending at its call; (3) a
-    push may fail only if at some moment between its call and its return S elements were pending —
-    pops only remove, so: S were pending at its call; never more than S pending; (4) the two
-    sides never wait in front of conflicting plain accesses of one slot."""
+    Property C30 on a history of calls and returns ("pending" = pushes that returned true minus
+    pops that returned true): (1) the values of the successful pops are, at every moment, a prefix
+    of the arguments of the successful pushes, and what the final drain delivers is exactly the
+    rest; (2) a pop may fail only if at some moment between its call and its return nothing was
+    pending — pushes only add, so: nothing was pending at its call; (3) a push may fail only if at
+    some moment between its call and its return at least S elements were pending — pops only
+    remove, so: at least S were pending at its call; (4) the two sides never wait in front of
+    conflicting plain accesses of one slot (a C++ data race).  The statement does not forbid a
+    ring that briefly accounts for more than S elements, so that is not checked."""
     pushed, popped = [], []
     nxt = 0
     p_inv = c_inv = None
+    found = {}
+
+    def report(key, what):
+        found.setdefault(key, what)
+
     for tok in tokens:
         if tok in (".", "x", "/"):
             continue
         if "!" in tok:
-            return ("C30:data-race", "producer and consumer are about to access the same slot at the same time (token %s)" % tok)
+            report("C30:data-race", "producer and consumer wait in front of conflicting plain accesses of the same slot (token %s)" % tok)
+            tok = tok.replace("!", "")
+            if tok == ".":
+                continue
         evs = EVENT.findall(tok)
         if "".join(evs) != tok.rstrip("#"):
-            return ("C30:protocol", "unparsable token %r" % tok)
+            report("C30:protocol", "unparsable token %r" % tok)
+            break
         for ev in evs:
             pend = len(pushed) - len(popped)
             if ev == "Pi":
                 p_inv = pend
             elif ev in ("P0", "P1"):
                 if p_inv is None or nxt >= len(vals):
-                    return ("C30:protocol", "push returned without a call")
+                    report("C30:protocol", "push returned without a call")
+                    return sorted(found.items())
                 if ev == "P1":
                     pushed.append(vals[nxt])
-                    if len(pushed) - len(popped) > cap:
-                        return ("C30:capacity-exceeded", "%d elements pending in a ring of capacity %d" % (len(pushed) - len(popped), cap))
-                elif p_inv != cap:
-                    return ("C30:push-failed-not-full", "try_push(%d) returned false although only %d of %d elements were pending when it was called"
-                            % (vals[nxt], p_inv, cap))
+                elif p_inv < cap:
+                    report("C30:push-failed-not-full", "try_push(%d) returned false although only %d of %d elements were pending when it was called"
+                           % (vals[nxt], p_inv, cap))
                 nxt += 1
                 p_inv = None
             elif ev == "Ci":
                 c_inv = pend
             else:
                 if c_inv is None:
-                    return ("C30:protocol", "pop returned without a call")
+                    report("C30:protocol", "pop returned without a call")
+                    return sorted(found.items())
                 if ev == "C-":
                     if c_inv != 0:
-                        return ("C30:pop-failed-nonempty", "try_pop returned false although %d pushed elements were pending when it was called" % c_inv)
+                        report("C30:pop-failed-nonempty", "try_pop returned false although %d pushed elements were pending when it was called" % c_inv)
                 else:
                     v = int(ev[1:])
                     if len(popped) >= len(pushed):
-                        return ("C30:fifo-order", "try_pop delivered %d but no pushed element was pending" % v)
+                        report("C30:fifo-order", "try_pop delivered %d but no pushed element was pending" % v)
+                        return sorted(found.items())     # the bookkeeping below is meaningless from here on
                     if v != pushed[len(popped)]:
-                        return ("C30:fifo-order", "try_pop delivered %d, the oldest pending element is %d (pushed %s, popped %s)"
-                                % (v, pushed[len(popped)], pushed, popped))
+                        report("C30:fifo-order", "try_pop delivered %d, the oldest pending element is %d (pushed %s, popped %s)"
+                               % (v, pushed[len(popped)], pushed, popped))
+                        return sorted(found.items())
                     popped.append(v)
                 c_inv = None
     rest = pushed[len(popped):]
-    if drain != rest:
-        return ("C30:drain-mismatch", "pending elements %s, sequential drain delivered %s" % (rest, drain))
-    return None
+    if drain != rest and "C30:protocol" not in found:
+        report("C30:drain-mismatch", "pending elements %s, sequential drain delivered %s" % (rest, drain))
+    return sorted(found.items())
 
 
 def parse_drain(tok):
@@ -247,8 +260,8 @@ def run_c30(ctx, replay_path=None):
                 "shared accesses (loads/stores of the two indices, slot copy) and then runs both sides to completion and drains; "
                 "`enum` executes EVERY complete schedule of the scope on the real code and on the model and both print the "
                 "histogram of call/return histories, which must be identical; each history the real code produced is judged by "
-                "an independent monitor (FIFO prefix, pop fails only if nothing pending at its call, push fails only if S "
-                "pending at its call, never more than S pending, drain delivers exactly the rest, no conflicting slot access). "
+                "an independent monitor (FIFO prefix, pop fails only if nothing pending at its call, push fails only if at least S "
+                "pending at its call, drain delivers exactly the rest, no conflicting slot access). "
                 "non-trivial = history with a failing call or overlapping calls; distinct = distinct (S, history)")
     if replay_path:
         j = json.load(open(replay_path))
@@ -256,22 +269,32 @@ def run_c30(ctx, replay_path=None):
         sessions = [[o] for o in ops]
     else:
         sessions = [[o] for _, ops in ctx.corpus() for o in ops]
-        n_random = 20000 if ctx.thorough else 2500
-        for i in range(n_random):
-            sessions.append([gen_run(ctx.rng, res, big=(i % 4 == 0))])
         sessions += [[m] for m in MALFORMED]
         res.count("malformed", len(MALFORMED))
+        n_random = 20000 if ctx.thorough else 1500
+        for i in range(n_random):
+            sessions.append([gen_run(ctx.rng, res, big=(i % 4 == 0))])
         if ctx.thorough:
             en = enum_lines([1, 2, 4], 3, 3, split_from=5)
             res.extra["exhaustive_small_scope"] = "every schedule for S in {1,2,4}, 0..3 pushes, 0..3 pops (quanta = shared accesses)"
         else:
-            en = enum_lines([1, 2, 4], 2, 2, split_from=99) + ["enum 1 11,22,33 3 -", "enum 3 11,22 2 -"]
-            res.extra["exhaustive_small_scope"] = "every schedule for S in {1,2,4}, 0..2 pushes, 0..2 pops; S=1 3 pushes 3 pops; S=3 2/2"
+            en = enum_lines([1, 2, 4], 2, 2, split_from=99) + ["enum 1 11,22,33 2 -", "enum 1 11,22 3 -", "enum 3 11,22 2 -"]
+            res.extra["exhaustive_small_scope"] = "every schedule for S in {1,2,4}, 0..2 pushes, 0..2 pops; S=1 3 pushes 2 pops and 2 pushes 3 pops; S=3 2/2"
         sessions += [[e] for e in en]
         res.count("enum-ops", len(en))
         res.exhaustive = False   # exhaustive in schedules for the small scopes only; the theorems cover the rest
 
-    impl = run_impl_parallel(ctx, sessions, 8 if ctx.thorough else 4)
+    # stage 1: corpus, malformed lines, the first random schedules. A tree on which these crash
+    # (sanitizer aborts restart the harness process every time) is not explored any further.
+    workers = 8 if ctx.thorough else 4
+    first = min(len(sessions), 260)
+    impl = run_impl_parallel(ctx, sessions[:first], workers)
+    crashes = sum(1 for r in impl if r["crash"])
+    if crashes > 10:
+        ctx.notes.append("%d of the first %d sessions crashed; the remaining %d sessions were not run" % (crashes, first, len(sessions) - first))
+        sessions = sessions[:first]
+    else:
+        impl += run_impl_parallel(ctx, sessions[first:], workers)
     model = ctx.run_model(sessions)
     dis = compare_sessions(sessions, impl, model)
 
@@ -317,11 +340,11 @@ def run_c30(ctx, replay_path=None):
         for toks, drain, run_op, weight in hs:
             res.evaluations += weight * max(1, len(run_op.split()[4]))
             if drain is None:
-                bad = ("C30:protocol", "no drain token in %r" % out[:200])
+                bad = [("C30:protocol", "no drain token in %r" % out[:200])]
             else:
                 bad = check_history(cap, vals, toks, drain)
-            if bad:
-                res.failures.append({"key": bad[0], "what": bad[1], "ops": [run_op], "observed": " ".join(toks)})
+            for key, what in bad:
+                res.failures.append({"key": key, "what": what, "ops": [run_op], "observed": " ".join(toks)})
             hist = tuple(t for t in toks if t not in (".", "x", "/"))
             if nontrivial(toks):
                 res.distinct.add((cap, hist))
